@@ -347,3 +347,10 @@ def c03_process_state(tier="quick", seed=0):
     """no module-level object of the engine is reachable from scripts of several contexts (the analysis of C12)"""
     from contracts.C12_context import process_state
     return process_state("C03", tier, seed)
+
+
+# ---- K1 shared with C07: what a catch clause receives from nested code is the thrown JS value or a script Error, never the host's error object
+import contracts.C07_exceptions as _C07      # noqa: E402
+from pyvc.api import register as _register, method as _method      # noqa: E402
+_register(_C07.c_rethrow_script_error, id="C03.VM._rethrow_script_error", prop="C03", target=_method("microjs.vm", "VM._rethrow_script_error"), native=_C07._native_rethrow,
+          summaries={"microjs.vm:VM._throw": _C07.spec_throw_recorded, "microjs.vm:VM._handle_python_exception": _C07.spec_handle_python_exception}, prim_args=False)
